@@ -291,7 +291,7 @@ ARGS = [(), ("a",), ("b", "x"), (1,), (3, "*"), (5,), (["x", "y"],), ("%Y-%m",),
 KWARGS = [{}, {}, {}, {"year": 2001}, {"sep": "a"}, {"maxsplit": 1}, {"keepends": True}, {"fillchar": "-"}]
 METHOD_EL = {
     "str": st.one_of(st.text(alphabet="abAB _1x{}", max_size=5), st.sampled_from(["", "a b", "Ab", "a\nb", "ß", "x=1", "2020-01-02"])),
-    "int": st.one_of(st.integers(-5, 300), st.sampled_from([0, 2 ** 40, -1])),
+    "int": st.one_of(st.integers(-5, 300), st.sampled_from([0, 2 ** 40, -1, -2, -1, 0])),
     "float": st.one_of(V.small_floats, st.sampled_from([0.1, -0.0, 2.0, 1e10, 7.0])),
     "date": V.dates,
 }
@@ -358,6 +358,36 @@ def run_methods(case, ctx):
                 pos = "first" if i == 0 else ("last" if i == len(want) - 1 else "middle")
                 nn = "none-position" if (g is None) != (w is None) else "value"
                 return ctx.fail(f"method/{k}.{name}/{nn}/{pos}", f"{vals}.{name}{args}{kw}: element {i} got {g!r} want {w!r}")
+        # the result is a new vector on every call: tampering with one result, or editing the operand
+        # (also to a value that hash() cannot tell from the old one), must show / not show accordingly
+        if got:
+            try:
+                res[0] = None
+            except Exception:  # noqa: BLE001
+                pass
+            ctx.ev()
+            try:
+                attr2 = getattr(v, name)
+                res2 = attr2(*args, **kw) if is_method else attr2
+            except Exception as e:  # noqa: BLE001
+                return ctx.fail(f"method/{k}.{name}/second-call-raised/{type(e).__name__}", str(e))
+            if res2 is res or len(list(res2)) != len(want) or not all(same(g, w) for g, w in zip(res2, want)):
+                return ctx.fail(f"method/{k}.{name}/result-not-fresh-on-second-call", f"{vals}.{name}{args}: second call gave {list(res2)[:6]}, expected {want[:6]}")
+            twins = {-1: -2, -2: -1, 0: 2 ** 61 - 1, 1: 2 ** 61, 0.0: float(2 ** 61 - 1)}
+            if k in ("int", "float") and vals[0] in twins and len(vals) <= 200:
+                w = S.Vector(list(vals))
+                try:
+                    a1 = getattr(w, name)
+                    (a1(*args, **kw) if is_method else a1)
+                    w[0] = twins[vals[0]]
+                    nv = list(w)
+                    want2 = [None if x is None else (getattr(x, name)(*args, **kw) if is_method else getattr(x, name)) for x in nv]
+                    a2 = getattr(w, name)
+                    r3 = list(a2(*args, **kw) if is_method else a2)
+                except Exception:  # noqa: BLE001
+                    r3 = want2 = None
+                if r3 is not None and not all(same(g, x) for g, x in zip(r3, want2)):
+                    return ctx.fail(f"method/{k}.{name}/stale-after-operand-edit", f"{vals} -> {nv}: {name} gave {r3[:6]}, expected {want2[:6]}")
         if None in vals and len({repr(x) for x in vals}) > 2:
             ctx.nontrivial(name)
     ctx.label("size_gt_100", int(len(vals) > 100))
